@@ -1,6 +1,7 @@
 import asyncio
 import functools
 import inspect
+import opcode
 import sys
 import types
 from asyncio import Future
@@ -116,6 +117,33 @@ def coro_get_frame(coro: Suspendable) -> FrameType:
     return cast(FrameType, _coro_getattr(coro, "frame"))
 
 
+# The instruction on which the frame of a generator rests until it is first
+# resumed (Python 3.11 and later; before that, `f_lasti` is -1 instead).
+_RETURN_GENERATOR = opcode.opmap.get("RETURN_GENERATOR")
+
+
+def _asyncgen_frame_state(agen: AsyncGenerator) -> str:
+    """
+    The state of the frame of an async generator, in the terms of
+    `inspect.getgeneratorstate()`: "created", "running", "suspended" or "closed".
+    `inspect.getasyncgenstate()` is only available from Python 3.12 and is, like
+    `ag_running` and `ag_await`, not enough: `ag_running` stays set for as long as
+    an `asend()` or `athrow()` is pending, also while the generator is suspended
+    in an inner `await`, and `ag_await` is `None` both in a generator that was
+    never started and in one that is paused at a `yield`.
+    """
+    frame = agen.ag_frame
+    if frame is None:
+        return "closed"
+    if frame.f_back is not None:
+        # a generator's frame is linked to a caller only while it is executing
+        return "running"
+    lasti = frame.f_lasti
+    if lasti < 0 or agen.ag_code.co_code[lasti] == _RETURN_GENERATOR:
+        return "created"
+    return "suspended"
+
+
 def coro_is_new(coro: Suspendable) -> bool:
     """
     Returns True if the coroutine has just been created and
@@ -126,12 +154,7 @@ def coro_is_new(coro: Suspendable) -> bool:
     elif inspect.isgenerator(coro):
         return inspect.getgeneratorstate(coro) == inspect.GEN_CREATED
     elif inspect.isasyncgen(coro):
-        # async generators have an ag_await if they are suspended
-        # ag_running() means that it is inside an anext() or athrow()
-        # but it may be suspended.
-        return (
-            coro.ag_frame is not None and coro.ag_await is None and not coro.ag_running
-        )
+        return _asyncgen_frame_state(coro) == "created"
     else:
         raise TypeError(
             f"a coroutine or coroutine like object is required. Got: {type(coro)}"
@@ -147,7 +170,8 @@ def coro_is_suspended(coro: Suspendable) -> bool:
     elif inspect.isgenerator(coro):
         return inspect.getgeneratorstate(coro) == inspect.GEN_SUSPENDED
     elif inspect.isasyncgen(coro):
-        return coro.ag_await is not None
+        # suspended in an `await`, or paused at a `yield`
+        return _asyncgen_frame_state(coro) == "suspended"
     else:
         raise TypeError(
             f"a coroutine or coroutine like object is required. Got: {type(coro)}"
